@@ -52,6 +52,25 @@ func (l *txList) Overlaps(tx *types.Transaction) bool {
 	return l.txs.Get(tx.Nonce()) != nil
 }
 
+// replaceable reports whether tx may be inserted into the list: either no
+// transaction with the same nonce is present, or tx outbids the one in place
+// by the required price bump.
+func (l *txList) replaceable(tx *types.Transaction, priceBump uint64) bool {
+	old := l.txs.Get(tx.Nonce())
+	if old == nil {
+		return true
+	}
+	// threshold = oldGP * (100 + priceBump) / 100
+	a := big.NewInt(100 + int64(priceBump))
+	a = a.Mul(a, old.GasPrice())
+	b := big.NewInt(100)
+	threshold := a.Div(a, b)
+	// Have to ensure that the new gas price is higher than the old gas
+	// price as well as checking the percentage threshold to ensure that
+	// this is accurate for low (Wei-level) gas price replacements
+	return old.GasPriceCmp(tx) < 0 && tx.GasPriceIntCmp(threshold) >= 0
+}
+
 // Add tries to insert a new transaction into the list, returning whether the
 // transaction was accepted, and if yes, any previous transaction it replaced.
 //
@@ -60,18 +79,8 @@ func (l *txList) Overlaps(tx *types.Transaction) bool {
 func (l *txList) Add(tx *types.Transaction, priceBump uint64) (bool, *types.Transaction) {
 	// If there's an older better transaction, abort
 	old := l.txs.Get(tx.Nonce())
-	if old != nil {
-		// threshold = oldGP * (100 + priceBump) / 100
-		a := big.NewInt(100 + int64(priceBump))
-		a = a.Mul(a, old.GasPrice())
-		b := big.NewInt(100)
-		threshold := a.Div(a, b)
-		// Have to ensure that the new gas price is higher than the old gas
-		// price as well as checking the percentage threshold to ensure that
-		// this is accurate for low (Wei-level) gas price replacements
-		if old.GasPriceCmp(tx) >= 0 || tx.GasPriceIntCmp(threshold) < 0 {
-			return false, nil
-		}
+	if !l.replaceable(tx, priceBump) {
+		return false, nil
 	}
 	// Otherwise overwrite the old transaction with the current one
 	l.txs.Put(tx)
